@@ -21,6 +21,7 @@ package main
 
 import (
 	"bytes"
+	"context"
 	"fmt"
 	"math"
 	"os"
@@ -417,7 +418,9 @@ func main() {
 		// receiver mode for all cases in one child process with a single P and no garbage collection
 		rcv := make([]string, len(lines))
 		exe, _ := os.Executable()
-		child := exec.Command(exe, "rcv")
+		// (with a time limit: a receiver that stops handing datagrams on is an outcome, not a reason to stall the run)
+		rcvCtx, rcvCancel := context.WithTimeout(context.Background(), 120*time.Second+time.Duration(len(lines))*20*time.Millisecond)
+		child := exec.CommandContext(rcvCtx, exe, "rcv")
 		child.Env = append(os.Environ(), "GOMAXPROCS=1", "GOGC=off")
 		child.Stdin = strings.NewReader(strings.Join(lines, "\n") + "\n")
 		if outB, err := child.Output(); err == nil {
@@ -426,9 +429,18 @@ func main() {
 				rcv = got
 			}
 		}
-		addrProblem := senderProbe()
+		rcvStalled := rcvCtx.Err() != nil
+		rcvCancel()
+		addrProblem := ""
+		if !rcvStalled {
+			addrProblem = senderProbe()
+		}
 		for i, line := range lines {
 			o := runOne(line)
+			if rcvStalled && strings.HasPrefix(o, "OK ") {
+				o += " RCVHANG"
+				rcvStalled = false
+			}
 			if addrProblem != "" && strings.HasPrefix(o, "OK ") {
 				o += " RCVADDR " + strings.ReplaceAll(addrProblem, " ", "_")
 				addrProblem = ""
